@@ -68,6 +68,16 @@ pub enum E1EvolvedCase {
     Grown { base: u16, extra: u8 },
 }
 
+// the enum itself has evolution steps (D14): index and case live in chunk 0 of a chunked record
+#[derive(BinaryCodec)]
+#[evolution(FieldAdded("tag", 0u8))]
+pub enum E2EvolvedEnum {
+    One,
+    Two(u16),
+    #[evolution(FieldAdded("w", 3u8))]
+    Three { v: u8, w: u8 },
+}
+
 #[derive(BinaryCodec)]
 pub enum E0TransientField {
     Seg(u8, #[transient(0u8)] u8, u16),
